@@ -35,14 +35,15 @@ type File struct {
 }
 
 type FileOpts struct {
-	MaxDBs      int
-	MaxKeys     int
-	MaxElems    int
-	ClassicOnly bool // no streams (decode mode, C12 logical comparisons)
-	NoMeta      bool // no aux/resizedb/module-aux
-	NoLua       bool
-	SmallDBs    bool // db numbers 0..15 only
-	ModuleFloat bool // allow the FLOAT opcode inside module-aux data
+	MaxDBs       int
+	MaxKeys      int
+	MaxElems     int
+	ClassicOnly  bool // no streams (decode mode, C12 logical comparisons)
+	NoMeta       bool // no aux/resizedb/module-aux
+	NoLua        bool
+	SmallDBs     bool // db numbers 0..15 only
+	ModuleFloat  bool // allow the FLOAT opcode inside module-aux data
+	FiniteScores bool // no +-inf scores
 }
 
 func dbNumber(t *rapid.T, small bool) uint32 {
@@ -203,6 +204,13 @@ func DrawFile(t *rapid.T, o FileOpts) *File {
 				enc = StreamEnc(t, f.Labels)
 			} else {
 				v := DrawValue(t, "", o.MaxElems)
+				if o.FiniteScores && v.Kind == "zset" {
+					for i := range v.ZSet {
+						if math.IsInf(v.ZSet[i].Score, 0) {
+							v.ZSet[i].Score = float64(i) + 0.25
+						}
+					}
+				}
 				enc = EncodeValue(t, v, f.Labels)
 				rec.Logical = &v
 			}
